@@ -684,8 +684,14 @@ def fam_keyed(ctx):
             ("gb.first", df.groupby(b).first().expr, [b]),
             ("gb.ffill", df.groupby(k).ffill().expr, [k]),
             ("gb.median", df.groupby(k).median().expr, [k]),
+            # a list slice names input columns the chunk functions select: they stay with the keys (D96)
+            ("gb.slice2.sum", df.groupby(k)[[cols[0], cols[1]]].sum().expr, [k, cols[0], cols[1]]),
+            ("gb.slice2.first", df.groupby(k)[[cols[1], cols[0]]].first().expr, [k, cols[1], cols[0]]),
+            ("gb.slice1.count", df.groupby(k)[[cols[0]]].count().expr, [k, cols[0]]),
+            ("gb.slice2.wide", type(df.groupby(k).sum().expr)(df.expr, *df.groupby(k)[[cols[0], cols[1]]].sum().expr.operands[1:]), [k, cols[0], cols[1]]),
         ):
-            insts.append(Inst("keyed", e, [e.frame], f"frame={rc(cols)} keys={rc(keys)}", list(e.columns), tag=nm))
+            # (a sliced groupby already sits on a projection of the frame to keys + slice)
+            insts.append(Inst("keyed", e, [e.frame], f"frame={rc(list(e.frame.columns))} keys={rc(keys)}", list(e.columns), tag=nm))
         for nm, e, keys in (
             ("sort1", df.sort_values(b).expr, [b]),
             ("sort2", df.sort_values([b, "a"]).expr, [b, "a"]),
@@ -1218,6 +1224,8 @@ def _programs():
     add("gb_sum", lambda t: t["L"].groupby("b").sum(), "groupby_projection", unordered=True)
     add("gb_count2", lambda t: t["L"].groupby(["b", "k"]).count(), "groupby_projection", "two keys", unordered=True)
     add("gb_agg", lambda t: t["L"].groupby("b").agg({"a": "sum", "c": "max"}), "groupby_projection", "dict spec", unordered=True)
+    add("gb_slice2_sum", lambda t: t["L"].groupby("b")[["a", "k"]].sum(), "groupby_projection", "list slice", unordered=True)
+    add("gb_slice2_count", lambda t: t["L"].groupby("b")[["k", "a"]].count(), "groupby_projection", "list slice", unordered=True)
     add("gb_first", lambda t: t["L"].groupby("b").first(), "groupby_projection", unordered=True)
     add("gb_cumsum", lambda t: t["L"].groupby("b").cumsum(), "groupby_projection", "transform")
     add("gb_dropna_key", lambda t: t["L"].dropna(subset=["c"]).groupby("b").sum(), "DropnaFrame._simplify_up", unordered=True)
@@ -1498,6 +1506,8 @@ CORPUS = [
     {"prog": "src_filter", "term": "sel", "sel": ["c"], "source": "read_parquet"},
     {"prog": "src", "term": "sel", "sel": ["e", "b"], "source": "from_map"},
     # a projectable from_map source asked for no column at all (D84)
+    {"prog": "gb_slice2_sum", "term": "sel", "sel": ["a"]},  # D96
+    {"prog": "gb_slice2_count", "term": "sel", "sel": "a"},
     {"prog": "src", "term": "sel", "sel": [], "source": "from_map"},
     {"prog": "src", "term": "sel", "sel": [], "source": "pandas"},
     {"prog": "src", "term": "sel", "sel": [], "source": "read_parquet"},
